@@ -295,13 +295,15 @@ bool comp_reset(zckCtx *zck) {
 bool comp_reset_comp_data(zckCtx *zck) {
     ALLOCD_BOOL(zck, zck);
 
-    if(zck->comp.data) {
+    /* The read position has to be reset even if the compressed buffer has
+     * already been handed over to the decompressor */
+    if(zck->comp.data)
         free(zck->comp.data);
-        zck->comp.data = NULL;
-        zck->comp.data_size = 0;
-        zck->comp.data_loc = 0;
-        zck->comp.data_idx = NULL;
-    }
+    zck->comp.data = NULL;
+    zck->comp.data_size = 0;
+    zck->comp.data_loc = 0;
+    zck->comp.data_idx = NULL;
+    zck->comp.data_eof = false;
     return true;
 }
 
@@ -763,5 +765,9 @@ ssize_t ZCK_PUBLIC_API zck_get_chunk_data(zckChunk *idx, char *dst,
     if(!seek_data(zck, zck_get_chunk_start(idx), SEEK_SET))
         return -1;
     zck->comp.data_idx = idx;
+    /* Start the chunk checksum afresh; it may hold a previous, partially
+     * read chunk */
+    if(!hash_init(zck, &(zck->check_chunk_hash), &(zck->chunk_hash_type)))
+        return -1;
     return comp_read(zck, dst, dst_size, 1);
 }
